@@ -769,6 +769,52 @@ def r4(ctx):
                   'recorded for unravel: a Python scalar or weakly typed leaf next to a narrower array '
                   'does not widen the result, its value is cast to the narrow dtype (300 -> 44 in int8) and '
                   'unravel(ravel(t)) != t' % (b, text), mod.loc(defs[0]))
+        # every recorded dtype takes part: the n-ary form is given the whole tuple; the fold starts
+        # from the first element, runs over the rest and promotes on every iteration (a promotion
+        # skipped under a guard - "it can be cast anyway" - makes the result depend on leaf order)
+        every, why_not = None, ''
+        for d_ in defs:
+            for c_ in ast.walk(d_.value):
+                if isinstance(c_, ast.Call) and (call_name(c_) or '').split('.')[-1] == 'result_type' and \
+                        any(isinstance(a_, ast.Starred) for a_ in c_.args):
+                    st = [a_.value for a_ in c_.args if isinstance(a_, ast.Starred)]
+                    ok_ = len(c_.args) == 1 and isinstance(st[0], ast.Name) and st[0].id in dts
+                    every = ok_ if every is None else (every and ok_)
+                    if not ok_:
+                        why_not = 'result_type is given `%s`, not the whole tuple of recorded dtypes' % src(c_)
+        loops = [l_ for l_ in walk(fn) if isinstance(l_, ast.For) and
+                 any(isinstance(x_, ast.Assign) and x_ in defs for x_ in ast.walk(l_))]
+        if loops:
+            from ..py_frontend import pycfg as _pycfg
+            cfg_ = _pycfg(fn)
+            for l_ in loops:
+                it = l_.iter
+                whole = isinstance(it, ast.Name) and it.id in dts
+                rest = isinstance(it, ast.Subscript) and isinstance(it.value, ast.Name) and it.value.id in dts and \
+                    isinstance(it.slice, ast.Slice) and it.slice.upper is None and it.slice.step is None and \
+                    isinstance(it.slice.lower, ast.Constant) and it.slice.lower.value == 1
+                first = any(isinstance(d2.value, ast.Subscript) and isinstance(d2.value.value, ast.Name) and
+                            d2.value.value.id in dts and isinstance(d2.value.slice, ast.Constant) and
+                            d2.value.slice.value == 0 for d2 in defs)
+                ok_ = whole or (rest and first)
+                if not ok_:
+                    why_not = 'the fold runs over `%s`' % src(it)
+                inner = [x_ for x_ in ast.walk(l_) if isinstance(x_, ast.Assign) and x_ in defs]
+                head = [n_ for n_ in cfg_.nodes if n_.label == 'for-head' and n_.ast is l_.target]
+                if head and inner:
+                    pn = {cfg_.ast_to_node.get(id(x_)) for x_ in inner}
+                    body_entry = [w for (w, lab) in cfg_.succ[head[0].idx] if lab is True]
+                    r_ = cfg_.reachable(body_entry, skip_nodes=pn, skip_back=False)
+                    if head[0].idx in r_:
+                        ok_ = False
+                        why_not = 'an iteration of the fold can pass without promoting (`%s` is under a condition)' \
+                            % src(inner[0])
+                every = ok_ if every is None else (every and ok_)
+        ctx.check('%s._ravel_leaves/every-dtype-takes-part' % b, bool(every),
+                  '%s: every recorded leaf dtype takes part in the promotion' % b,
+                  '%s: %s: the common dtype then depends on the order of the leaves, a wider leaf that comes '
+                  'later is cast down and unravel(ravel(t)) != t' % (b, why_not or 'no promotion over the recorded dtypes found'),
+                  mod.loc(defs[0]))
         ctx.check('%s._ravel_leaves/promotion' % b, not (b == 'numpy' and pairwise_np),
                   '%s: common dtype computed as `%s`' % (b, text),
                   'numpy backend folds np.promote_types pairwise (`%s`): that operation is not '
